@@ -14,12 +14,18 @@ histories for a failing input and reports the violation either way).
 namespace SaoVerif
 
 theorem C17_decision_skeleton_as_modelled :
-    Generated.Skel.x_did_keeper_msg_server_binding_go = Expected.Skel.x_did_keeper_msg_server_binding_go ∧
-    Generated.Skel.x_did_keeper_msg_server_update_go = Expected.Skel.x_did_keeper_msg_server_update_go ∧
-    Generated.Skel.x_did_keeper_msg_server_update_payment_address_go = Expected.Skel.x_did_keeper_msg_server_update_payment_address_go ∧
-    Generated.Skel.x_did_keeper_did_management_go = Expected.Skel.x_did_keeper_did_management_go ∧
-    Generated.Skel.x_did_keeper_utils_go = Expected.Skel.x_did_keeper_utils_go ∧
-    Generated.Skel.x_did_types_genesis_go = Expected.Skel.x_did_types_genesis_go := by
+    [Generated.Skel.x_did_keeper_msg_server_binding_go,
+     Generated.Skel.x_did_keeper_msg_server_update_go,
+     Generated.Skel.x_did_keeper_msg_server_update_payment_address_go,
+     Generated.Skel.x_did_keeper_did_management_go,
+     Generated.Skel.x_did_keeper_utils_go,
+     Generated.Skel.x_did_types_genesis_go] =
+    [Expected.Skel.x_did_keeper_msg_server_binding_go,
+     Expected.Skel.x_did_keeper_msg_server_update_go,
+     Expected.Skel.x_did_keeper_msg_server_update_payment_address_go,
+     Expected.Skel.x_did_keeper_did_management_go,
+     Expected.Skel.x_did_keeper_utils_go,
+     Expected.Skel.x_did_types_genesis_go] := by
   decide +kernel
 
 end SaoVerif
